@@ -167,7 +167,16 @@ def random_circuit(cirq, rng, measured=False, with_sub=False, with_ignored=False
             ops.append(cirq.measure(*t, key=key, invert_mask=tuple(rng.random() < 0.3 for _ in t)))
             continue
         if measured and keys and r < 0.3:
-            ops.append(gen.one_qubit_gate(cirq, rng).on(t[0]).with_classical_controls(rng.choice(keys)))
+            ck = rng.choice(keys)
+            count = sum(1 for o in ops if cirq.is_measurement(o) and ck in cirq.measurement_key_names(o))
+            rc = rng.random()
+            if rc < 0.5:
+                cond = cirq.KeyCondition(cirq.MeasurementKey(ck), rng.choice([-1, -1, 0, count - 1]))
+            elif rc < 0.8:
+                cond = cirq.BitMaskKeyCondition(ck, index=rng.choice([-1, 0]), target_value=1, equal_target=rng.random() < 0.5, bitmask=1)
+            else:
+                cond = ck
+            ops.append(gen.one_qubit_gate(cirq, rng).on(t[0]).with_classical_controls(cond))
             continue
         g = {1: gen.one_qubit_gate, 2: gen.two_qubit_gate}[k](cirq, rng)
         if rng.random() < 0.25 and k == 1:
@@ -366,6 +375,7 @@ def run(ctx: common.Run):
         (cirq.Circuit(cirq.H(cq0), cirq.Z(cq0), cirq.CircuitOperation(cirq.FrozenCircuit(cirq.H(cq0), cirq.measure(cq0, key='m')))), ['drop_diagonal_before_measurement']),
         (cirq.Circuit(cirq.X(cq0), cirq.measure(cq0, key='a'), cirq.X(cq0), cirq.measure(cq1, key='a')), ['defer_measurements', 'synchronize_terminal_measurements']),
         (cirq.Circuit(cirq.measure(cq0, key='a'), cirq.X(cq1).with_classical_controls('a'), cirq.X(cq0), cirq.measure(cq0, key='a')), ['defer_measurements']),
+        (cirq.Circuit(cirq.X(cq0), cirq.measure(cq0, key='a'), cirq.X(cq0), cirq.measure(cq0, key='a'), cirq.X(cq1).with_classical_controls(cirq.BitMaskKeyCondition('a', index=0, bitmask=1, target_value=1, equal_target=True)), cirq.measure(cq1, key='b')), ['defer_measurements']),
         (cirq.Circuit(cirq.X(cq0), cirq.measure(cq0, key='a'), cirq.I(cq1), cirq.Moment(cirq.H(cq1)), cirq.Moment(cirq.H(cq1)), cirq.measure(cq1, key='a')), ['synchronize_terminal_measurements']),
         (cirq.Circuit(cirq.Moment(cirq.H(cq0), cirq.Y(cq1)), cirq.Moment(cirq.measure(cq0, key='a')), cirq.Moment(cirq.X(cq1).with_classical_controls('a')), cirq.Moment(cirq.measure(cq1, key='b'))), ['merge_operations_to_circuit_op', 'merge_operations(sub-circuit)']),
         (cirq.Circuit(cirq.CircuitOperation(cirq.FrozenCircuit(cirq.H(cq0), cirq.measure(cq0, key='a'), cirq.X(cq1).with_classical_controls('a'), cirq.measure(cq1, key='b')))),
